@@ -34,6 +34,9 @@ type Gen struct {
 	infoOf    map[*types.Package]*types.Info
 	alias     map[string]map[string]string // fnKey -> contract name -> current name (renamed variables)
 	storedLate map[string]bool
+	snapFuncs map[string]bool // functions the contracts were written against (spec/funcs.json)
+	inlOnly   map[*ssa.Function]bool
+	plans     map[*ssa.Function]*inlPlan
 }
 
 type locKind int
@@ -103,6 +106,13 @@ type fnTrans struct {
 	capturedBorrow map[ssa.Value]bool
 	curBlock *ssa.BasicBlock
 	rangeOf  map[ssa.Value]*ssa.Range
+	frames   []*inlFrame // helpers being translated in place (inline.go)
+	plan     *inlPlan
+	inlined  map[string]bool
+	paramArg map[*ssa.Parameter]ssa.Value
+	loopOrds map[int]bool // flattened loop ordinals in use (caller + helpers translated in place)
+	curNode  *inlNode     // the in-place instance being translated (the root: the function itself)
+	allSites []siteEnt    // every site of every instance
 }
 
 type lockKeyRef struct{ term, field string }
@@ -148,6 +158,7 @@ func (t *fnTrans) oblige(kind, disc string, pos token.Pos, goal string, note str
 		o.Trivial = true
 	}
 	o.posv = pos
+	o.vkey = t.curVpos(pos)
 	if !o.Trivial && !strings.HasPrefix(kind, "lock.") && !strings.HasPrefix(kind, "guard.") {
 		o.Vars = t.visibleVars()
 	}
@@ -532,7 +543,18 @@ func (t *fnTrans) havocLoc(l *loc) {
 // ---- CFG preparation ---------------------------------------------------------------
 
 func (t *fnTrans) prepareCFG() {
-	fn := t.fn
+	if t.plan != nil {
+		t.curNode = t.plan.root
+	} else {
+		t.curNode = &inlNode{fn: t.fn}
+	}
+	t.planLoops()
+	t.loops, t.order = t.computeCFG(t.fn)
+}
+
+// loopsOf: natural loops of fn with their first source position.
+func loopsOf(fn *ssa.Function) map[*ssa.BasicBlock]*loopInfo {
+	t := struct{ loops map[*ssa.BasicBlock]*loopInfo }{}
 	t.loops = map[*ssa.BasicBlock]*loopInfo{}
 	// back edges by dominance
 	for _, b := range fn.Blocks {
@@ -557,8 +579,6 @@ func (t *fnTrans) prepareCFG() {
 			}
 		}
 	}
-	// loop ordinals in source order
-	var ls []*loopInfo
 	for _, li := range t.loops {
 		li.pos = token.NoPos
 		for b := range li.blocks {
@@ -571,20 +591,47 @@ func (t *fnTrans) prepareCFG() {
 				}
 			}
 		}
-		ls = append(ls, li)
+	}
+	return t.loops
+}
+
+// planLoops numbers the loops of the function and of the helpers translated in place in
+// flattened source order (a helper's loops stand where its call stands).
+func (t *fnTrans) planLoops() {
+	type ent struct {
+		li *loopInfo
+		vp vpos
+		n  *inlNode
+	}
+	var ls []ent
+	for _, n := range t.planNodes() {
+		n.loopOrd = map[*ssa.BasicBlock]int{}
+		for _, li := range loopsOf(n.fn) {
+			ls = append(ls, ent{li, append(append(vpos{}, n.vp...), li.pos), n})
+		}
 	}
 	sort.Slice(ls, func(i, j int) bool {
-		if ls[i].pos != ls[j].pos {
-			return ls[i].pos < ls[j].pos
+		if vposLess(ls[i].vp, ls[j].vp) != vposLess(ls[j].vp, ls[i].vp) {
+			return vposLess(ls[i].vp, ls[j].vp)
 		}
-		if len(ls[i].blocks) != len(ls[j].blocks) {
-			return len(ls[i].blocks) > len(ls[j].blocks)
+		if len(ls[i].li.blocks) != len(ls[j].li.blocks) {
+			return len(ls[i].li.blocks) > len(ls[j].li.blocks)
 		}
-		return ls[i].header.Index < ls[j].header.Index
+		return ls[i].li.header.Index < ls[j].li.header.Index
 	})
-	for i, li := range ls {
-		li.ord = i + 1
+	t.loopOrds = map[int]bool{}
+	for i, e := range ls {
+		e.n.loopOrd[e.li.header] = i + 1
+		t.loopOrds[i+1] = true
 	}
+}
+
+func (t *fnTrans) computeCFG(fn *ssa.Function) (map[*ssa.BasicBlock]*loopInfo, []*ssa.BasicBlock) {
+	loops := loopsOf(fn)
+	for h, li := range loops {
+		li.ord = t.curNode.loopOrd[h]
+	}
+	var order []*ssa.BasicBlock
 	// reverse postorder ignoring back edges
 	seen := map[*ssa.BasicBlock]bool{}
 	var post []*ssa.BasicBlock
@@ -608,8 +655,9 @@ func (t *fnTrans) prepareCFG() {
 		// recover block is only reachable through panics; not modelled
 	}
 	for i := len(post) - 1; i >= 0; i-- {
-		t.order = append(t.order, post[i])
+		order = append(order, post[i])
 	}
+	return loops, order
 }
 
 func isBackEdge(from, to *ssa.BasicBlock) bool { return to.Dominates(from) }
@@ -682,8 +730,8 @@ func (t *fnTrans) missingSites() {
 	}
 	// a clause about loop N needs a loop N
 	haveLoop := map[int]bool{}
-	for _, li := range t.loops {
-		haveLoop[li.ord] = true
+	for ord := range t.loopOrds {
+		haveLoop[ord] = true
 	}
 	loopClause := func(n int, sl specLine, what string) {
 		if haveLoop[n] {
@@ -707,14 +755,15 @@ func (t *fnTrans) missingSites() {
 		loopClause(n, specLine{file: fc.file, line: fc.line, text: fmt.Sprintf("loop %d complete", n)}, "complete")
 	}
 	have := map[string]bool{}
-	for _, s := range t.sites {
+	for _, se := range t.allSites {
+		s := se.label
 		have[s] = true
 		have[s+".then"] = true
 		have[s+".else"] = true
 	}
 	var present []string
-	for _, s := range t.sites {
-		present = append(present, s)
+	for _, se := range t.allSites {
+		present = append(present, se.label)
 	}
 	sort.Strings(present)
 	check := func(label string, sl specLine) {
@@ -928,7 +977,11 @@ func (t *fnTrans) instr(in ssa.Instruction) {
 	case *ssa.Jump:
 		// edges computed lazily
 	case *ssa.Return:
-		t.ret(in)
+		if len(t.frames) > 0 {
+			t.inlineReturn(in)
+		} else {
+			t.ret(in)
+		}
 	case *ssa.Panic:
 		t.oblige("safe.panic", "panic", in.Pos(), "false", "explicit panic reachable")
 		t.cur.reach = "false"
@@ -1041,6 +1094,9 @@ func (t *fnTrans) nilCheck(v ssa.Value, term string, pos token.Pos, what string)
 func (t *fnTrans) mayBeNil(v ssa.Value) bool {
 	switch v := v.(type) {
 	case *ssa.Parameter:
+		if a, ok := t.paramArg[v]; ok {
+			return t.mayBeNil(a) // parameter of a helper translated in place: what the caller passed
+		}
 		return t.contract != nil && t.contract.nullable[t.g.contractName(t.key, v.Name())]
 	case *ssa.FreeVar, *ssa.Global, *ssa.Alloc, *ssa.MakeClosure, *ssa.MakeMap, *ssa.MakeChan, *ssa.Function, *ssa.FieldAddr, *ssa.IndexAddr:
 		return false
@@ -1121,6 +1177,9 @@ func (t *fnTrans) mayBeNilShallow(v ssa.Value) bool {
 func (t *fnTrans) describe(v ssa.Value) string {
 	switch v := v.(type) {
 	case *ssa.Parameter:
+		if a, ok := t.paramArg[v]; ok {
+			return t.describe(a)
+		}
 		return v.Name()
 	case *ssa.UnOp:
 		if v.Op == token.MUL {
